@@ -133,6 +133,12 @@ func (b *BatchResult) addStats(st simrt.Stats, nontrivial bool) {
 		b.SitesHit[k] += v
 	}
 	b.Steps += st.Steps
+	if b.Extra == nil {
+		b.Extra = map[string]float64{}
+	}
+	if float64(st.Steps) > b.Extra["max_steps_in_one_run"] {
+		b.Extra["max_steps_in_one_run"] = float64(st.Steps)
+	}
 	b.Switches += st.Switches
 	b.ClockMs += st.ClockMs
 	b.ULIDs += st.ULIDs
